@@ -17,11 +17,16 @@ CLAIM = ("Partial by nature (DESIGN.md §3 C10, §9): byte identity across proce
          "same language, so the meaning of the output never depends on container order; nondet_sources_ok — the inventory regenerated "
          "from src/*.rs, Cargo.toml and Cargo.lock on every run has no randomly seeded hash container, no run-time read of the "
          "environment / clock / thread or process id / pointer value / RNG, and the direct hashbrown requirement is the fixed-key 0.13 "
-         "line (decided by the kernel on the current inventory). Observed: the real binary is run in fresh processes (quick 6, thorough "
+         "line; hash_impls_paired — every type with a hand-written Hash impl also has a hand-written PartialEq (a hand-written Hash next to a "
+         "derived order-insensitive equality on the key of a randomly seeded IndexSet is the defect repaired in 131db37) (all decided by the "
+         "kernel on the current inventory). Observed: the real binary is run in fresh processes (quick 6, thorough "
          "24) with differing environments (env -i + differing HOME/LANG/RUST_BACKTRACE, hundreds of junk variables that move the stack, "
          "every environment-variable name the source mentions set to junk in half of the runs, ASLR on) for the bundled examples and "
          "random large grammars (many states, several commands that occur only inside words in different within-word automata, "
-         "same-shaped within-word automata), script + --dfa + --regex, four shells; all bytes must agree.")
+         "same-shaped within-word automata, within-word expressions over the same items in permuted order), script + --dfa + --regex, four "
+         "shells; all bytes must agree. Deterministic half of the observation: in the real library's automaton of every explored grammar no "
+         "two entries of the within-word intern pool compare equal with the library's own `==` (otherwise keeping them apart or merging them "
+         "is decided by the randomly seeded hash of the process: the defect repaired in 131db37); a hit is then exhibited on the real binary.")
 NOTE = ("Level `other`: theorem about the model (schedule independence of meaning) + kernel-decided source inventory + multi-process "
         "observation. Trusted: translate.py's inventory patterns (a container smuggled in under a type alias from another crate is seen "
         "only by the runtime half).")
@@ -52,6 +57,73 @@ def big_grammar(rng, i):
     g = gen.Gen(rng, max_depth=rng.choice([4, 5, 6]), p_sub=0.3, p_cmd=0.2, p_nt=0.25, p_fb=0.15,
                 cmd_texts=[f"echo k{j}" for j in range(8)])
     return g.grammar(n_defs=rng.randint(2, 6), n_variants=rng.randint(2, 5))
+
+
+def pool_shapes(rng, n):
+    """grammars with several within-word expressions built from the same items in a different order, with the same
+    automaton shape: whether two of them are told apart must not depend on hash values"""
+    out = []
+    for i in range(n):
+        k = i % 4
+        a, b, c = rng.sample(["LOCAL", "REMOTE", "HOST", "USER", "PORT"], 3)
+        sep = rng.choice([":", "=", "@", "/"])
+        if k == 0:
+            text = (f"cmd push <{a}>{sep}<{b}> | pull <{b}>{sep}<{a}>;\n<{a}> = {{{{{{ echo {a.lower()}-1 }}}}}};\n"
+                    f"<{b}> = {{{{{{ echo {b.lower()}-1 }}}}}};\n")
+        elif k == 1:
+            vals = rng.sample(["v", "w", "u1", "q", "zz"], rng.randint(2, 4))
+            perms = []
+            for _ in range(rng.randint(2, 5)):
+                pm = vals[:]
+                rng.shuffle(pm)
+                perms.append(pm)
+            text = "cmd " + " | ".join(f"k{j} --opt=({' | '.join(pm)}) x{j}" for j, pm in enumerate(perms)) + ";\n"
+        elif k == 2:
+            items = [f"<{a}>", f"<{b}>", f"<{c}>"]
+            variants = []
+            for j in range(rng.randint(3, 6)):
+                pm = items[:]
+                rng.shuffle(pm)
+                variants.append(f"k{j} " + sep.join(pm))
+            text = ("cmd " + " | ".join(variants) + ";\n" +
+                    "".join(f"<{x}> = {{{{{{ echo {x.lower()}-1; echo {x.lower()}-2 }}}}}};\n" for x in (a, b, c)))
+        else:
+            text = (f"cmd (a{{{{{{ echo c }}}}}} | {{{{{{ echo c }}}}}}a) x | --k=(p || q) y | --k=(q || p) z;\n")
+        out.append((f"pool{i}", text))
+    return out
+
+
+def check_pools(ctx, grammars):
+    """deterministic half: in the real library's automaton, two entries of the within-word pool never compare equal
+    (`==`) — otherwise interning them apart or together is decided by the hash values of the process"""
+    cases = [(f"{gi}", "bash", text) for gi, (name, text) in enumerate(grammars)]
+    recs = core.run_vh(cases, flags="dfa")
+    bad = []
+    for gi, (name, text) in enumerate(grammars):
+        rec = recs.get(str(gi), {})
+        if rec.get("stage") != "ok":
+            ctx.count("pool-check:not-accepted")
+            continue
+        ctx.count("pool-check:grammars")
+        ctx.evaluations += 1
+        if rec.get("pool_eq"):
+            bad.append((name, text, rec["pool_eq"]))
+    return bad
+
+
+def exhibit(ctx, text, shell, names, tries):
+    """runs the real binary in fresh processes until two different outputs are seen"""
+    workdir = tempfile.mkdtemp(prefix="c10x-", dir=ctx.workdir)
+    p = os.path.join(workdir, "g.usage")
+    with open(p, "w") as f:
+        f.write(text)
+    seen = set()
+    jobs = [(shell, p, make_env(ctx.rng, i, names, workdir), workdir, f"x{i}") for i in range(tries)]
+    with concurrent.futures.ThreadPoolExecutor(16) as ex:
+        for r in ex.map(one_run, jobs, chunksize=4):
+            seen.add(json.dumps(r))
+    shutil.rmtree(workdir, ignore_errors=True)
+    return len(seen)
 
 
 def make_env(rng, run, names, home):
@@ -100,6 +172,16 @@ def run(ctx, proof):
             grammars.append((os.path.basename(p), f.read()))
     for i in range(ngram):
         grammars.append((f"big{i}", big_grammar(rng, i)))
+    shapes = pool_shapes(rng, 120 if ctx.thorough() else 24)
+    grammars += shapes[:8 if ctx.thorough() else 3]
+    # deterministic half first: pool entries that compare equal
+    for name, text, pairs in check_pools(ctx, grammars + shapes):
+        n = exhibit(ctx, text, "bash", names, 600 if ctx.thorough() else 300)
+        ctx.count("pool-entries-compare-equal")
+        ctx.violation("intern-pool-entries-compare-equal", {
+            "grammar": text, "grammar_hex": core.hexs(text), "shell": "bash", "pairs": pairs, "distinct_outputs_seen": n,
+            "what": (f"within-word automata {pairs} of the library's pool are distinct entries that compare equal (==): whether they are "
+                     f"merged depends on the hash values of the process; {n} different outputs seen in fresh processes")})
     jobs, meta = [], []
     for gi, (name, text) in enumerate(grammars):
         path = os.path.join(workdir, f"g{gi}.usage")
@@ -152,7 +234,10 @@ def replay(ctx, proof, path):
         f.write(rp["grammar"])
     rs = [one_run((rp["shell"], p, make_env(ctx.rng, i, names, workdir), workdir, f"r{i}")) for i in range(24)]
     shutil.rmtree(workdir, ignore_errors=True)
-    if len({json.dumps(r) for r in rs}) > 1:
+    pool = check_pools(ctx, [("replay", rp["grammar"])])
+    if pool:
+        print("replay: pool entries that compare equal:", pool[0][2])
+    if len({json.dumps(r) for r in rs}) > 1 or pool:
         print(f"VIOLATION property={ctx.prop} replay={path}")
         return 1
     print("replay: property holds on this case now")
